@@ -92,11 +92,11 @@ type simCluster struct {
 	closed    bool
 	logAppend bool // LogAppendTime: responses carry a timestamp
 
-	noHold bool                 // conducted replay left its behaviour: requests are no longer held
+	noHold bool // conducted replay left its behaviour: requests are no longer held
 	// conducted replay: a produce request WITHOUT any batch (the idempotent producer forces an empty buffer out on an epoch
 	// roll-over) is answered at once, is not numbered and takes no plan; the conductor is told (broker index)
 	onEmptyProduce func(broker int32)
-	reqIDs map[int]map[int][]int // produce request number -> partition -> ids it carries
+	reqIDs         map[int]map[int][]int // produce request number -> partition -> ids it carries
 
 	initPidFault   string
 	fetchPlans     map[string]*simFetchPlan
